@@ -30,7 +30,7 @@ Proof.
     + destruct (unmodelled e1); auto. rewrite <- (IHh e1 ip h1 w1).
       destruct (runl recl ip h1 w1 (hd e1)) as [[h2 w2 [v2|e2] d2| |] l2]; cbn [fst]; auto.
       specialize (IHk v2 ip h2 w2). destruct (runl recl ip h2 w2 (k v2)) as [o3 l3]. cbn [fst] in *. rewrite IHk. reflexivity.
-  - destruct op; [destruct (w_in w)|]; auto.
+  - destruct (wstep w op) as [w2 [rv|re]]; auto.
 Qed.
 Theorem bsl_erases : forall n ip h w tk, fst (bsl n ip h w tk) = bs n ip h w tk.
 Proof.
@@ -158,7 +158,7 @@ Proof.
           destruct (run_facts n ip h3 w3 (k v3) h2 w2 r2 d0 l4 R4 I3) as [L4 _]. eapply hle_trans; eauto.
         - inversion R2; subst. destruct (run_facts n ip h1 w1 (hd e1) _ _ _ _ _ R3 I1) as [L3 _]. exact L3. }
       exact (seq_ok h h1 h2 l1 l2 L1 L2 O1 O2').
-  - destruct op; [destruct (w_in w)|]; apply IH; auto.
+  - destruct (wstep w op) as [w2 [rv|re]]; [apply IH; auto|apply okl_nil].
 Qed.
 
 Lemma notcached_uncached h u : uncached h u -> ~ cached h u.
@@ -225,7 +225,7 @@ Theorem evaluated_at_most_once fuel prog stdin h' w' r d l :
 Proof.
   unfold trace_main. destruct (alloc heap0 prog {| funs := []; args := [] |}) as [h t] eqn:A.
   assert (h = fst (alloc heap0 prog {| funs := []; args := [] |})) by (rewrite A; auto). subst h.
-  intros H. destruct (count_all fuel) as (_ & HC & _). pose proof (HC (call (PFormat (VThunk t) false)) [] _ {| w_in := stdin; w_out := [] |} (inv_start prog)) as O.
+  intros H. destruct (count_all fuel) as (_ & HC & _). pose proof (HC (call (PFormat (VThunk t) false)) [] _ (world_start stdin []) (inv_start prog)) as O.
   rewrite H in O. exact (proj1 O).
 Qed.
 (* ... and every one that was evaluated is a delayed expression of the final heap, holding its result: LINEAR WORK - the number of
@@ -241,7 +241,7 @@ Theorem work_is_linear fuel prog stdin h' w' r d l :
 Proof.
   unfold trace_main. destruct (alloc heap0 prog {| funs := []; args := [] |}) as [h t] eqn:A.
   assert (h = fst (alloc heap0 prog {| funs := []; args := [] |})) by (rewrite A; auto). subst h.
-  intros H. destruct (count_all fuel) as (_ & HC & _). pose proof (HC (call (PFormat (VThunk t) false)) [] _ {| w_in := stdin; w_out := [] |} (inv_start prog)) as O.
+  intros H. destruct (count_all fuel) as (_ & HC & _). pose proof (HC (call (PFormat (VThunk t) false)) [] _ (world_start stdin []) (inv_start prog)) as O.
   rewrite H in O. destruct O as [N Al].
   destruct (comp_facts fuel [] _ _ (call (PFormat (VThunk t) false)) h' w' r d l H (inv_start prog)) as [_ (W & _)].
   split; [|intros u I; exact (proj2 (Al u I))].
